@@ -138,15 +138,35 @@ def check_text(check, name, pi, pc, value, want_sort=None, decl=None, ops=(), cv
     return results
 
 
-def run_inst(check, loader, name, inst, setup, run, post, contracts=None):
+def run_inst(check, loader, name, inst, setup, run, post, contracts=None, frame=True):
     check.instances_declared += 1
-    ex = explore(loader, setup, run, contracts=contracts)
+
+    def setup_marked(it):
+        st = setup(it)
+        roots = []
+
+        def walk(v):
+            if isinstance(v, Obj):
+                roots.append(v)
+            elif isinstance(v, dict):
+                for x in v.values():
+                    walk(x)
+            elif isinstance(v, (list, tuple)):
+                for x in v:
+                    walk(x)
+        walk(st)
+        if roots and frame:
+            it.ctx.mark_pre(*roots)
+        return st
+    ex = explore(loader, setup_marked, run, contracts=contracts)
     check.absorb(ex, f"{name} {inst}")
     if ex.paths:
         check.instances_generated += 1
     for i, p in enumerate(ex.paths):
         pi = inst if len(ex.paths) == 1 else f"{inst} path={i}"
         post(p, pi)
+        if p.outcome == "return" and frame:
+            emit.frame_obligation(check, name, pi, p)
 
 
 # ------------------------------------------------------------------------------------------
